@@ -43,9 +43,16 @@ class with_entropy:
 SOLVER_FAIL_NAMES = ("SolverError", "SolutionFailure", "ArithmeticError", "ZeroDivisionError", "LinAlgError")
 
 
-def call_value(fn, res, label):
-    """Call a value method.  ('ok', float) | ('fail', kind).  Solver failures and
-    non-finite optima are operation-failed outcomes: counted, never violations."""
+# What counts as "the operation failed" rather than "the library is wrong": a numerical solver giving up.
+# Everything else raised on a valid input (TypeError, IndexError, OverflowError, a shape error ...) is the
+# library failing to compute the value the property promises, and is reported.
+SOLVER_FAILURES = {"SolverError", "ArithmeticError", "SolutionFailure", "FloatingPointError"}
+
+
+def call_value(fn, res, label, prop=None, allow=None):
+    """Call a value method.  ('ok', float) | ('fail', kind).  Solver failures and non-finite optima are
+    operation-failed outcomes: counted, never violations.  With `prop` given, any other exception is a violation
+    `<prop>.op.raises`; `allow(exception)` may name further legitimate failures of this particular call."""
     with warnings.catch_warnings():
         warnings.simplefilter("ignore")
         try:
@@ -53,11 +60,16 @@ def call_value(fn, res, label):
         except Exception as e:
             kind = type(e).__name__
             res.failed(f"{label}:{kind}")
+            legit = kind in SOLVER_FAILURES or (allow is not None and allow(e))  # exact class: OverflowError is an ArithmeticError too
+            if prop is not None and not legit:
+                res.violate(f"{prop}.op.raises", op=label, exc=kind, msg=str(e)[:200])
             return ("fail", kind, str(e)[:160])
     try:
         f = float(np.real(v))
     except Exception:
         res.failed(f"{label}:non_numeric")
+        if prop is not None:
+            res.violate(f"{prop}.op.raises", op=label, why="result is not a number", got=repr(v)[:80])
         return ("fail", "non_numeric", repr(v)[:80])
     if not np.isfinite(f):
         res.failed(f"{label}:non_finite")
